@@ -8,6 +8,10 @@ from collections import Counter
 VERIF = os.path.dirname(os.path.dirname(os.path.abspath(__file__)))
 
 
+class EnoughViolations(BaseException):
+    pass
+
+
 class Report:
     def __init__(self, prop, tier, seed):
         self.prop, self.tier, self.seed = prop, tier, seed
@@ -34,7 +38,16 @@ class Report:
         self.inductive = None
 
     # ------------------------------------------------------------------
+    def _enough(self):
+        """a tree on which six different violations have been replayed is broken: the remaining harnesses add nothing to the
+        verdict (exit 1) and can take very long on such a tree"""
+        if len(self.violations) >= 6 and not getattr(self, "_stopped", False):
+            self._stopped = True
+            self.notes.append("stopped after %d distinct replayed violations; the remaining harnesses were not run" % len(self.violations))
+            raise EnoughViolations()
+
     def add_exploration(self, name, ex, bounds=None, extra=None):
+        self._enough()
         st = ex.by_status()
         h = {"harness": name, "paths": ex.paths, "feasible_paths": len(ex.results),
              "queries": ex.stats.get("queries", 0), "unsat": ex.stats.get("q_unsat", 0),
@@ -68,7 +81,7 @@ class Report:
             self.inconclusive.append("%s: %d path(s) left the modelled fragment (%s): not covered by the claim" % (name, nun, why))
         nb = sum(1 for r in ex.results if r["status"] == "budget")
         if nb:
-            self.inconclusive.append("%s: %d path(s) exceeded the per-path budget" % (name, nb))
+            self.inconclusive.append("%s: %d path(s) exceeded the per-path budget (%s)" % (name, nb, next(r.get("why") for r in ex.results if r["status"] == "budget")))
         for r in ex.results:
             if r["status"] == "harness_error":
                 self.harness_errors.append("%s: %s %s" % (name, r.get("why"), r.get("tb", "")))
